@@ -553,10 +553,12 @@ def kernel_signature(m):
             'leaves': sorted(leaves)}
 
 
-def _env_at(m, node):
+def _env_at(m, node, names=None):
     """Env holding the straight-line lets (and compound assignments to closure-local
-    variables) that precede `node` in its enclosing blocks."""
+    variables) that precede `node` in its enclosing blocks.  `names`: local id -> symbol name."""
     env = Env()
+    for lid, nm in (names or {}).items():
+        env.name(lid, nm)
     m._name_tags(env)
 
     def rec(e):
